@@ -1087,7 +1087,9 @@ func (ex *Exec) jump(st *State, fr *Frame, b *ssa.BasicBlock) {
 		ev := ex.loopEnv(st, fr)
 		if spec != nil {
 			for i, inv := range spec.Invariants {
-				ex.oblige(st, fnKey, fmt.Sprintf("inv:%s@loop%d:preserved", labelOr(inv, i), li.Ordinal), clauseTags(inv, fr.contract), ev.Bool(inv.E), where, inv.Src)
+				if g, ok := boolTolerant(ev, inv); ok {
+					ex.oblige(st, fnKey, fmt.Sprintf("inv:%s@loop%d:preserved", labelOr(inv, i), li.Ordinal), clauseTags(inv, fr.contract), g, where, inv.Src)
+				}
 			}
 			if spec.Decreases != nil && ls.variant != nil {
 				nv := ev.typed(ev.eval(spec.Decreases.E))
@@ -1105,7 +1107,9 @@ func (ex *Exec) jump(st *State, fr *Frame, b *ssa.BasicBlock) {
 	if spec != nil {
 		ev := ex.loopEnv(st, fr)
 		for i, inv := range spec.Invariants {
-			ex.oblige(st, fnKey, fmt.Sprintf("inv:%s@loop%d:entry", labelOr(inv, i), li.Ordinal), clauseTags(inv, fr.contract), ev.Bool(inv.E), where, inv.Src)
+			if g, ok := boolTolerant(ev, inv); ok {
+				ex.oblige(st, fnKey, fmt.Sprintf("inv:%s@loop%d:entry", labelOr(inv, i), li.Ordinal), clauseTags(inv, fr.contract), g, where, inv.Src)
+			}
 		}
 	}
 	tg, explicit := ex.havocLoop(st, fr, li, spec)
@@ -1113,7 +1117,9 @@ func (ex *Exec) jump(st *State, fr *Frame, b *ssa.BasicBlock) {
 	if spec != nil {
 		ev := ex.loopEnv(st, fr)
 		for _, inv := range spec.Invariants {
-			st.assume(ev.Bool(inv.E))
+			if g, ok := boolTolerant(ev, inv); ok {
+				st.assume(g)
+			}
 		}
 		if spec.Decreases != nil {
 			v := ev.typed(ev.eval(spec.Decreases.E))
@@ -2234,4 +2240,21 @@ func (ex *Exec) capturedValue(st *State, v Val, elem types.Type, view HeapView) 
 		}
 	}
 	return SV{}, false
+}
+
+// boolTolerant evaluates a clause; a clause of kind "hint" that cannot be evaluated (it names a local that no
+// longer exists) yields ok == false instead of a contract error.
+func boolTolerant(ev *Eval, cl *Clause) (g T, ok bool) {
+	if cl.Kind != "hint" {
+		return ev.Bool(cl.E), true
+	}
+	defer func() {
+		if r := recover(); r != nil {
+			if _, isSpec := r.(specErr); !isSpec {
+				panic(r)
+			}
+			ok = false
+		}
+	}()
+	return ev.Bool(cl.E), true
 }
